@@ -70,8 +70,13 @@ pub fn handle(op: &str, req: &Value) -> Option<Value> {
                     }
                 },
                 "serialize_restore" => {
+                    // `build` already went through from_serializable once: compare with the table as it was requested
                     let lm2 = LockManager::from_serializable(lm.to_serializable());
-                    return Some(json!({"before": before, "after": dump(&lm2), "result": null}));
+                    let mut want: Vec<Value> = req["table"]["locks"].as_array().into_iter().flatten().map(|l| json!({"key": kname(&l["key"]), "tx": l["tx"], "handle": l["handle"]})).collect();
+                    want.sort_by_key(|v| v["key"].as_str().unwrap_or("").to_string());
+                    let mut wtx: Vec<Value> = req["table"]["tx_locks"].as_array().into_iter().flatten().map(|t| json!({"tx": t["tx"], "keys": t["keys"].as_array().into_iter().flatten().map(kname).collect::<Vec<_>>()})).collect();
+                    wtx.sort_by_key(|v| v["tx"].as_u64().unwrap_or(0));
+                    return Some(json!({"before": json!({"locks": want, "tx_locks": wtx}), "after": dump(&lm2), "result": null}));
                 },
                 "release" => { lm.release(req["tx"].as_u64().unwrap_or(0)); json!(null) },
                 "release_by_handle" => { lm.release_by_handle(req["handle"].as_u64().unwrap_or(0)); json!(null) },
